@@ -220,6 +220,21 @@ class Model:
                     pass
             if isinstance(st, ast.FunctionDef):
                 g[st.name] = Func(st, g, self.interp)
+        import collections
+        g.setdefault("namedtuple", collections.namedtuple)
+        g.setdefault("collections", Namespace(
+            "collections", namedtuple=collections.namedtuple))
+        for st in self.tree.body:
+            # module-level classes built by a call (namedtuple, ...)
+            if isinstance(st, ast.Assign) and len(st.targets) == 1 \
+                    and isinstance(st.targets[0], ast.Name) \
+                    and isinstance(st.value, ast.Call) \
+                    and st.targets[0].id not in g:
+                try:
+                    g[st.targets[0].id] = self.interp.ev(
+                        st.value, None, g, None)
+                except (AnalysisError, ModelRaise):
+                    pass
         self.methods = {f.name: f for f in self.cls.body
                         if isinstance(f, ast.FunctionDef)}
         self.rectified = {}
